@@ -5,6 +5,7 @@ package c07
 
 import (
 	"math/big"
+	"math/bits"
 	"time"
 
 	"pgregory.net/rapid"
@@ -17,12 +18,12 @@ import (
 var discountAlphabet = []string{"0.5", "0.9", "0.1", "0.25", "0.75", "0.99", "0.01", "0.333333", "0.999999", "0.000001", "0.6", "0.05"}
 
 func drawDiscount(t *rapid.T, label string) string {
-	return rapid.SampledFrom(discountAlphabet).Draw(t, label)
+	return pickFrom(t, label, discountAlphabet)
 }
 
 func (m *machine) drawPricing(t *rapid.T) *PricingSpec {
 	p := &PricingSpec{Denom: baseDenom}
-	switch k := rapid.IntRange(0, 19).Draw(t, "price/kind"); {
+	switch k := uni(t, "price/kind", 20); {
 	case k == 0:
 		p.Price = "0"
 	case k < 12:
@@ -30,23 +31,23 @@ func (m *machine) drawPricing(t *rapid.T) *PricingSpec {
 	default:
 		p.Price = gen.Amount(t, "price", 40).String()
 	}
-	if swMultiDenom && rapid.IntRange(0, 3).Draw(t, "price/denom") == 0 {
-		p.Denom = rapid.SampledFrom([]string{"btc", "eth"}).Draw(t, "price/denomname")
+	if swMultiDenom && uni(t, "price/denom", 4) == 0 {
+		p.Denom = pickFrom(t, "price/denomname", []string{"btc", "eth"})
 	}
 	if swAvoidF2 {
 		return p
 	}
 	now := m.s.C.Time().Unix()
 	// 0-2 promotions by time placed around the current block time
-	nT := rapid.SampledFrom([]int{0, 0, 1, 1, 2}).Draw(t, "price/ntime")
-	start := now + int64(rapid.IntRange(-30, 20).Draw(t, "price/tstart"))
+	nT := pickFrom(t, "price/ntime", []int{0, 0, 1, 1, 2})
+	start := now + int64((uni(t, "price/tstart", 51) - 30))
 	for i := 0; i < nT; i++ {
-		dur := int64(rapid.SampledFrom([]int{1, 5, 20, 60, 600, 86400}).Draw(t, "price/tdur"))
+		dur := int64(pickFrom(t, "price/tdur", []int{1, 5, 20, 60, 600, 86400}))
 		p.ByTime = append(p.ByTime, PromoT{Start: start, End: start + dur, Discount: drawDiscount(t, "price/tdisc")})
-		start += dur + int64(rapid.IntRange(0, 30).Draw(t, "price/tgap"))
+		start += dur + int64(uni(t, "price/tgap", 31))
 	}
 	// 0-3 ascending promotions by volume
-	nV := rapid.SampledFrom([]int{0, 1, 1, 2, 3}).Draw(t, "price/nvol")
+	nV := pickFrom(t, "price/nvol", []int{0, 1, 1, 2, 3})
 	vol := uint64(0)
 	for i := 0; i < nV; i++ {
 		vol += uint64(rapid.IntRange(1, 3).Draw(t, "price/vstep"))
@@ -57,18 +58,18 @@ func (m *machine) drawPricing(t *rapid.T) *PricingSpec {
 
 func (m *machine) drawParams(t *rapid.T) *ParamSpec {
 	ps := m.params
-	switch rapid.IntRange(0, 5).Draw(t, "params/what") {
+	switch uni(t, "params/what", 8) {
 	case 0, 1:
-		ps.Tax = rapid.SampledFrom([]string{"0", "0.05", "0.5", "0.999999999999999999", "0.333333333333333333", "0.000000000000000001", "0.1", "0.9"}).Draw(t, "params/tax")
+		ps.Tax = pickFrom(t, "params/tax", []string{"0", "0.05", "0.5", "0.999999999999999999", "0.333333333333333333", "0.000000000000000001", "0.1", "0.9"})
 	case 2, 3:
-		ps.Slash = rapid.SampledFrom([]string{"0", "0.001", "1", "0.5", "0.999999999999999999", "0.333333333333333333", "0.01", "0.1"}).Draw(t, "params/slash")
+		ps.Slash = pickFrom(t, "params/slash", []string{"0", "0.001", "1", "0.5", "0.999999999999999999", "0.333333333333333333", "0.01", "0.1"})
 	case 4:
-		ps.Multiple = int64(rapid.SampledFrom([]int{1, 2, 10, 1000}).Draw(t, "params/multiple"))
-		ps.MinDeposit = rapid.SampledFrom([]string{"1", "10", "5000"}).Draw(t, "params/mindeposit")
+		ps.Multiple = int64(pickFrom(t, "params/multiple", []int{1, 2, 10, 1000}))
+		ps.MinDeposit = pickFrom(t, "params/mindeposit", []string{"1", "10", "5000"})
 	default:
-		ps.Arbitration = int64(rapid.SampledFrom([]int{1, 5, 60, 432000}).Draw(t, "params/arbitration"))
-		ps.Complaint = int64(rapid.SampledFrom([]int{1, 5, 60, 1296000}).Draw(t, "params/complaint"))
-		ps.MaxTimeout = int64(rapid.SampledFrom([]int{100, 100, 6, 20}).Draw(t, "params/maxtimeout"))
+		ps.Arbitration = int64(pickFrom(t, "params/arbitration", []int{1, 1, 5, 60, 432000}))
+		ps.Complaint = int64(pickFrom(t, "params/complaint", []int{1, 1, 5, 60, 1296000}))
+		ps.MaxTimeout = int64(pickFrom(t, "params/maxtimeout", []int{100, 100, 6, 20}))
 	}
 	return &ps
 }
@@ -97,11 +98,11 @@ func (m *machine) drawBinding(t *rapid.T) *mBinding {
 	if len(m.bindOrd) == 0 {
 		return nil
 	}
-	return m.binds[rapid.SampledFrom(m.bindOrd).Draw(t, "binding")]
+	return m.binds[pickFrom(t, "binding", m.bindOrd)]
 }
 
 func (m *machine) ownerFor(t *rapid.T, b *mBinding) int {
-	if rapid.IntRange(0, 11).Draw(t, "owner/wrong") == 0 {
+	if uni(t, "owner/wrong", 12) == 0 {
 		return 1 - b.owner
 	}
 	return b.owner
@@ -121,13 +122,13 @@ func (m *machine) Next(t *rapid.T) Op {
 	c08 := m.c08()
 	defs := m.definedSvcs()
 	// bootstrap: a service and a couple of bindings first
-	if len(defs) == 0 && rapid.IntRange(0, 9).Draw(t, "boot/define") < 9 {
-		return Op{Kind: "define", Who: rapid.IntRange(0, 1).Draw(t, "who"), Svc: 0}
+	if len(defs) == 0 && uni(t, "boot/define", 10) < 9 {
+		return Op{Kind: "define", Who: uni(t, "who", 2), Svc: 0}
 	}
-	if len(defs) > 0 && len(m.bindOrd) < 2 && rapid.IntRange(0, 9).Draw(t, "boot/bind") < 7 {
+	if len(defs) > 0 && len(m.bindOrd) < 2 && uni(t, "boot/bind", 10) < 7 {
 		return m.genBind(t, defs)
 	}
-	if len(m.bindOrd) >= 2 && len(m.ctxs) == 0 && rapid.IntRange(0, 9).Draw(t, "boot/call") < 6 {
+	if len(m.bindOrd) >= 2 && len(m.ctxs) == 0 && uni(t, "boot/call", 10) < 6 {
 		return m.genCall(t, defs, false)
 	}
 
@@ -149,7 +150,19 @@ func (m *machine) Next(t *rapid.T) Op {
 	if swMultiDenom {
 		ws = append(ws, w{"rate", 1})
 	}
+	nUnavail := 0
+	for _, k := range m.bindOrd {
+		if !m.binds[k].avail {
+			nUnavail++
+		}
+	}
 	for i := range ws {
+		if ws[i].kind == "enable" && nUnavail > 0 {
+			ws[i].w += 4 * nUnavail
+		}
+		if ws[i].kind == "refund" && nUnavail > 0 && m.params.Arbitration+m.params.Complaint < 3600 {
+			ws[i].w += 4
+		}
 		if ws[i].kind == "respond" && len(active) > 0 {
 			ws[i].w += 22
 		}
@@ -161,7 +174,7 @@ func (m *machine) Next(t *rapid.T) Op {
 	for _, x := range ws {
 		total += x.w
 	}
-	pick := rapid.IntRange(0, total-1).Draw(t, "kind")
+	pick := uni(t, "kind", (total-1)+1)
 	kind := ""
 	for _, x := range ws {
 		if pick < x.w {
@@ -173,7 +186,7 @@ func (m *machine) Next(t *rapid.T) Op {
 
 	switch kind {
 	case "define":
-		return Op{Kind: "define", Who: rapid.IntRange(0, 1).Draw(t, "who"), Svc: rapid.IntRange(0, nServices-1).Draw(t, "svc")}
+		return Op{Kind: "define", Who: uni(t, "who", 2), Svc: uni(t, "svc", (nServices-1)+1)}
 	case "bind":
 		return m.genBind(t, defs)
 	case "updbind":
@@ -182,12 +195,12 @@ func (m *machine) Next(t *rapid.T) Op {
 			return m.genBind(t, defs)
 		}
 		op := Op{Kind: "updbind", Who: m.ownerFor(t, b), Svc: svcIndex(b.svc), Prov: b.prov}
-		what := rapid.IntRange(0, 6).Draw(t, "upd/what")
+		what := uni(t, "upd/what", 7)
 		if what&1 != 0 || what == 0 {
 			op.Pricing = m.drawPricing(t)
 		}
 		if what&2 != 0 {
-			op.QoS = uint64(rapid.IntRange(1, 8).Draw(t, "upd/qos"))
+			op.QoS = uint64(pickFrom(t, "upd/qos", []int{1, 1, 1, 2, 3, 4, 8}))
 		}
 		if what&4 != 0 || op.Pricing != nil {
 			// top the deposit up to what the (new) pricing needs, sometimes one short
@@ -198,7 +211,7 @@ func (m *machine) Next(t *rapid.T) Op {
 			add := gen.Amount(t, "upd/deposit", 30)
 			if md, ok := m.params.minDeposit(pr, baseDenom, m.rates); ok && md.Cmp(b.deposit) > 0 {
 				add = new(big.Int).Sub(md, b.deposit)
-				if rapid.IntRange(0, 9).Draw(t, "upd/short") == 0 && add.Cmp(bi(1)) > 0 {
+				if uni(t, "upd/short", 10) == 0 && add.Cmp(bi(1)) > 0 {
 					add.Sub(add, bi(1))
 				}
 			}
@@ -219,11 +232,11 @@ func (m *machine) Next(t *rapid.T) Op {
 		op := Op{Kind: "enable", Who: m.ownerFor(t, b), Svc: svcIndex(b.svc), Prov: b.prov}
 		if md, ok := m.params.minDeposit(b.pricing, baseDenom, m.rates); ok && md.Cmp(b.deposit) > 0 {
 			add := new(big.Int).Sub(md, b.deposit)
-			if rapid.IntRange(0, 9).Draw(t, "enable/short") == 0 && add.Cmp(bi(1)) > 0 {
+			if uni(t, "enable/short", 10) == 0 && add.Cmp(bi(1)) > 0 {
 				add.Sub(add, bi(1))
 			}
 			op.Amt = add.String()
-		} else if rapid.IntRange(0, 2).Draw(t, "enable/extra") == 0 {
+		} else if uni(t, "enable/extra", 3) == 0 {
 			op.Amt = gen.Amount(t, "enable/deposit", 30).String()
 		}
 		return op
@@ -234,7 +247,7 @@ func (m *machine) Next(t *rapid.T) Op {
 		}
 		return Op{Kind: "refund", Who: m.ownerFor(t, b), Svc: svcIndex(b.svc), Prov: b.prov}
 	case "setwd":
-		return Op{Kind: "setwd", Who: rapid.IntRange(0, 1).Draw(t, "who"), Addr: rapid.IntRange(0, 6).Draw(t, "addr")}
+		return Op{Kind: "setwd", Who: uni(t, "who", 2), Addr: uni(t, "addr", 7)}
 	case "call":
 		return m.genCall(t, defs, false)
 	case "mcall":
@@ -244,15 +257,15 @@ func (m *machine) Next(t *rapid.T) Op {
 			return Op{Kind: "block", N: 1, Dt: gen.Dt(t, "dt")}
 		}
 		op := Op{Kind: "respond"}
-		if len(active) > 0 && rapid.IntRange(0, 9).Draw(t, "respond/target") < 8 {
-			op.Req = rapid.SampledFrom(active).Draw(t, "respond/active")
+		if len(active) > 0 && uni(t, "respond/target", 10) < 8 {
+			op.Req = pickFrom(t, "respond/active", active)
 		} else {
-			op.Req = rapid.IntRange(0, len(m.reqs)-1).Draw(t, "respond/any")
+			op.Req = uni(t, "respond/any", len(m.reqs))
 		}
-		if rapid.IntRange(0, 9).Draw(t, "respond/wrong") == 0 {
-			op.Wrong, op.Prov = true, rapid.IntRange(0, nProviders-2).Draw(t, "respond/other")
+		if uni(t, "respond/wrong", 10) == 0 {
+			op.Wrong, op.Prov = true, uni(t, "respond/other", (nProviders-2)+1)
 		}
-		switch rapid.IntRange(0, 11).Draw(t, "respond/form") {
+		switch uni(t, "respond/form", 12) {
 		case 0:
 			op.Code = 400
 		case 1:
@@ -276,49 +289,49 @@ func (m *machine) Next(t *rapid.T) Op {
 				cand = append(cand, i)
 			}
 		}
-		idx := rapid.IntRange(0, len(m.ctxs)-1).Draw(t, "ctx/any")
-		if len(cand) > 0 && rapid.IntRange(0, 9).Draw(t, "ctx/pref") < 8 {
-			idx = rapid.SampledFrom(cand).Draw(t, "ctx/repeated")
+		idx := uni(t, "ctx/any", len(m.ctxs))
+		if len(cand) > 0 && uni(t, "ctx/pref", 10) < 8 {
+			idx = pickFrom(t, "ctx/repeated", cand)
 		}
 		c := m.ctxs[idx]
 		op := Op{Kind: kind, Ctx: idx}
-		if rapid.IntRange(0, 7).Draw(t, "ctx/stranger") == 0 {
-			op.Stranger, op.Who = true, rapid.IntRange(0, 5).Draw(t, "ctx/who")
+		if uni(t, "ctx/stranger", 8) == 0 {
+			op.Stranger, op.Who = true, uni(t, "ctx/who", 6)
 		}
 		if c.module {
-			op.Keeper = rapid.IntRange(0, 7).Draw(t, "ctx/keeper") > 0
+			op.Keeper = uni(t, "ctx/keeper", 8) > 0
 		}
 		if kind == "ctl" {
 			switch {
-			case c.state == servicetypes.PAUSED && rapid.IntRange(0, 9).Draw(t, "ctl/resume") < 8:
+			case c.state == servicetypes.PAUSED && uni(t, "ctl/resume", 10) < 8:
 				op.Ctl = "start"
 			default:
-				op.Ctl = rapid.SampledFrom([]string{"pause", "pause", "pause", "start", "kill"}).Draw(t, "ctl/kind")
+				op.Ctl = pickFrom(t, "ctl/kind", []string{"pause", "pause", "pause", "start", "kill"})
 			}
 			if swAvoidOverTotal && op.Ctl == "start" && c.repeated && c.total > 0 && int64(c.counter) >= c.total {
 				op.Ctl = "kill" // resuming a context that has used up its total issues an extra batch (finding C08/batch-over-total)
 			}
 			return op
 		}
-		switch rapid.IntRange(0, 4).Draw(t, "updctx/what") {
+		switch uni(t, "updctx/what", 5) {
 		case 0:
 			op.Provs = m.drawProviders(t, c.svc)
 		case 1:
 			op.Amt = gen.Amount(t, "updctx/cap", 50).String()
 		case 2:
 			op.Timeout = int64(rapid.IntRange(1, 6).Draw(t, "updctx/timeout"))
-			op.Freq = uint64(op.Timeout) + uint64(rapid.IntRange(0, 3).Draw(t, "updctx/freqextra"))
+			op.Freq = uint64(op.Timeout) + uint64(uni(t, "updctx/freqextra", 4))
 		case 3:
 			op.Freq = uint64(rapid.IntRange(1, 9).Draw(t, "updctx/freq"))
 		default:
-			op.Total = int64(rapid.SampledFrom([]int{-1, 1, 2, 3, 5, 8}).Draw(t, "updctx/total"))
+			op.Total = int64(pickFrom(t, "updctx/total", []int{-1, 1, 2, 3, 5, 8}))
 		}
-		if c.module && rapid.IntRange(0, 2).Draw(t, "updctx/thr") == 0 {
+		if c.module && uni(t, "updctx/thr", 3) == 0 {
 			op.Threshold = uint32(rapid.IntRange(1, 3).Draw(t, "updctx/threshold"))
 		}
 		return op
 	case "withdraw":
-		op := Op{Kind: "withdraw", Who: rapid.IntRange(0, 1).Draw(t, "who")}
+		op := Op{Kind: "withdraw", Who: uni(t, "who", 2)}
 		// prefer a provider with a tally
 		var have []int
 		for p, e := range m.earned {
@@ -328,27 +341,45 @@ func (m *machine) Next(t *rapid.T) Op {
 		}
 		sortInts(have)
 		switch {
-		case rapid.IntRange(0, 5).Draw(t, "withdraw/all") == 0:
+		case uni(t, "withdraw/all", 6) == 0:
 			op.Prov = -1
-		case len(have) > 0 && rapid.IntRange(0, 9).Draw(t, "withdraw/pref") < 8:
-			op.Prov = rapid.SampledFrom(have).Draw(t, "withdraw/prov")
-			if o, ok := m.owners[op.Prov]; ok && rapid.IntRange(0, 9).Draw(t, "withdraw/owner") < 9 {
+		case len(have) > 0 && uni(t, "withdraw/pref", 10) < 8:
+			op.Prov = pickFrom(t, "withdraw/prov", have)
+			if o, ok := m.owners[op.Prov]; ok && uni(t, "withdraw/owner", 10) < 9 {
 				op.Who = o
 			}
 		default:
-			op.Prov = rapid.IntRange(0, nProviders-1).Draw(t, "withdraw/anyprov")
+			op.Prov = uni(t, "withdraw/anyprov", (nProviders-1)+1)
 		}
 		return op
 	case "params":
 		return Op{Kind: "params", Params: m.drawParams(t)}
 	case "rate":
-		return Op{Kind: "rate", Denom: rapid.SampledFrom([]string{"btc", "eth"}).Draw(t, "rate/denom"),
-			Rate: rapid.SampledFrom([]string{"2", "0.5", "1", "0.001", "1000", "1.5", "0.333333"}).Draw(t, "rate/value")}
+		return Op{Kind: "rate", Denom: pickFrom(t, "rate/denom", []string{"btc", "eth"}),
+			Rate: pickFrom(t, "rate/value", []string{"2", "0.5", "1", "0.001", "1000", "1.5", "0.333333"})}
 	default:
-		n := rapid.SampledFrom([]int{1, 1, 1, 2, 2, 3, 4, 6}).Draw(t, "block/n")
+		n := pickFrom(t, "block/n", []int{1, 1, 1, 2, 2, 3, 4, 6})
 		return Op{Kind: "block", N: n, Dt: gen.Dt(t, "dt")}
 	}
 }
+
+// uni draws a uniformly distributed integer in [0, n). rapid's own integer generators favour small values
+// (geometric bit length), which would distort the op mix; single bits are unbiased.
+func uni(t *rapid.T, label string, n int) int {
+	if n <= 1 {
+		return 0
+	}
+	nb := bits.Len(uint(n-1)) + 4
+	v := 0
+	for i := 0; i < nb; i++ {
+		if rapid.Bool().Draw(t, label) {
+			v |= 1 << i
+		}
+	}
+	return v % n
+}
+
+func pickFrom[T any](t *rapid.T, label string, xs []T) T { return xs[uni(t, label, len(xs))] }
 
 func sortInts(a []int) {
 	for i := 1; i < len(a); i++ {
@@ -368,13 +399,13 @@ func (m *machine) pickBinding(t *rapid.T, pred func(*mBinding) bool) *mBinding {
 	if len(keys) == 0 {
 		return nil
 	}
-	return m.binds[rapid.SampledFrom(keys).Draw(t, "binding/filtered")]
+	return m.binds[pickFrom(t, "binding/filtered", keys)]
 }
 
 func (m *machine) genBind(t *rapid.T, defs []int) Op {
-	op := Op{Kind: "bind", Svc: rapid.IntRange(0, nServices-1).Draw(t, "svc")}
-	if len(defs) > 0 && rapid.IntRange(0, 11).Draw(t, "bind/undefined") > 0 {
-		op.Svc = rapid.SampledFrom(defs).Draw(t, "bind/svc")
+	op := Op{Kind: "bind", Svc: uni(t, "svc", (nServices-1)+1)}
+	if len(defs) > 0 && uni(t, "bind/undefined", 12) > 0 {
+		op.Svc = pickFrom(t, "bind/svc", defs)
 	}
 	// prefer a provider not yet bound to this service (index 4 is never bound so that calls can name an unbound one)
 	var free []int
@@ -383,23 +414,23 @@ func (m *machine) genBind(t *rapid.T, defs []int) Op {
 			free = append(free, p)
 		}
 	}
-	op.Prov = rapid.IntRange(0, nProviders-2).Draw(t, "bind/prov")
-	if len(free) > 0 && rapid.IntRange(0, 11).Draw(t, "bind/rebind") > 0 {
-		op.Prov = rapid.SampledFrom(free).Draw(t, "bind/free")
+	op.Prov = uni(t, "bind/prov", (nProviders-2)+1)
+	if len(free) > 0 && uni(t, "bind/rebind", 12) > 0 {
+		op.Prov = pickFrom(t, "bind/free", free)
 	}
-	op.Who = rapid.IntRange(0, 1).Draw(t, "bind/owner")
-	if o, ok := m.owners[op.Prov]; ok && rapid.IntRange(0, 11).Draw(t, "bind/otherowner") > 0 {
+	op.Who = uni(t, "bind/owner", 2)
+	if o, ok := m.owners[op.Prov]; ok && uni(t, "bind/otherowner", 12) > 0 {
 		op.Who = o
 	}
 	op.Pricing = m.drawPricing(t)
-	op.QoS = uint64(rapid.SampledFrom([]int{1, 1, 1, 2, 3, 5, 8}).Draw(t, "bind/qos"))
+	op.QoS = uint64(pickFrom(t, "bind/qos", []int{1, 1, 1, 1, 1, 2, 2, 3, 5}))
 	dep := bi(1)
 	if md, ok := m.params.minDeposit(*op.Pricing, baseDenom, m.rates); ok && md.Sign() > 0 {
 		dep = md
 	}
 	// a multiple of the minimum so that a slash does not always push the binding below it
-	dep = new(big.Int).Mul(dep, bi(int64(rapid.SampledFrom([]int{1, 1, 2, 3}).Draw(t, "bind/depmult"))))
-	switch rapid.IntRange(0, 9).Draw(t, "bind/deposit") {
+	dep = new(big.Int).Mul(dep, bi(int64(pickFrom(t, "bind/depmult", []int{1, 2, 2, 3, 4}))))
+	switch uni(t, "bind/deposit", 10) {
 	case 0:
 		if dep.Cmp(bi(1)) > 0 {
 			dep = new(big.Int).Sub(dep, bi(1)) // one short
@@ -419,36 +450,36 @@ func (m *machine) drawProviders(t *rapid.T, svc string) []int {
 			bound = append(bound, p)
 		}
 	}
-	n := rapid.SampledFrom([]int{1, 1, 2, 2, 3, 4}).Draw(t, "provs/n")
+	n := pickFrom(t, "provs/n", []int{1, 1, 2, 2, 3, 4})
 	seen := map[int]bool{}
 	var out []int
 	for i := 0; i < n; i++ {
-		p := rapid.IntRange(0, nProviders-1).Draw(t, "provs/any")
-		if len(bound) > 0 && rapid.IntRange(0, 9).Draw(t, "provs/bound") < 8 {
-			p = rapid.SampledFrom(bound).Draw(t, "provs/pick")
+		p := uni(t, "provs/any", (nProviders-1)+1)
+		if len(bound) > 0 && uni(t, "provs/bound", 10) < 8 {
+			p = pickFrom(t, "provs/pick", bound)
 		}
-		if seen[p] && rapid.IntRange(0, 19).Draw(t, "provs/dup") > 0 {
+		if seen[p] && uni(t, "provs/dup", 20) > 0 {
 			continue
 		}
 		seen[p] = true
 		out = append(out, p)
 	}
 	if len(out) == 0 {
-		out = []int{rapid.IntRange(0, nProviders-1).Draw(t, "provs/one")}
+		out = []int{uni(t, "provs/one", (nProviders-1)+1)}
 	}
 	return out
 }
 
 func (m *machine) genCall(t *rapid.T, defs []int, module bool) Op {
-	op := Op{Kind: "call", Module: module, Svc: rapid.IntRange(0, nServices-1).Draw(t, "svc")}
-	if len(defs) > 0 && rapid.IntRange(0, 15).Draw(t, "call/undefined") > 0 {
-		op.Svc = rapid.SampledFrom(defs).Draw(t, "call/svc")
+	op := Op{Kind: "call", Module: module, Svc: uni(t, "svc", (nServices-1)+1)}
+	if len(defs) > 0 && uni(t, "call/undefined", 16) > 0 {
+		op.Svc = pickFrom(t, "call/svc", defs)
 	}
-	op.Who = rapid.SampledFrom([]int{2, 2, 2, 3, 3, 3, 4, 5}).Draw(t, "call/consumer")
+	op.Who = pickFrom(t, "call/consumer", []int{2, 2, 2, 3, 3, 3, 4, 5})
 	op.Provs = m.drawProviders(t, svcName(op.Svc))
-	op.Timeout = int64(rapid.SampledFrom([]int{1, 1, 2, 2, 3, 3, 4, 6}).Draw(t, "call/timeout"))
-	if rapid.IntRange(0, 29).Draw(t, "call/longtimeout") == 0 {
-		op.Timeout = int64(rapid.SampledFrom([]int{100, 101, 50}).Draw(t, "call/timeout2"))
+	op.Timeout = int64(pickFrom(t, "call/timeout", []int{1, 1, 2, 2, 3, 3, 4, 6}))
+	if uni(t, "call/longtimeout", 30) == 0 {
+		op.Timeout = int64(pickFrom(t, "call/timeout2", []int{100, 101, 50}))
 	}
 	// fee cap relative to what the chosen providers charge right now
 	now := m.s.C.Time()
@@ -466,41 +497,41 @@ func (m *machine) genCall(t *rapid.T, defs []int, module bool) Op {
 	}
 	cap := gen.Pow2(60)
 	if len(fees) > 0 {
-		switch rapid.IntRange(0, 9).Draw(t, "call/capkind") {
+		switch uni(t, "call/capkind", 10) {
 		case 0, 1:
-			cap = rapid.SampledFrom(fees).Draw(t, "call/capfee")
+			cap = pickFrom(t, "call/capfee", fees)
 		case 2:
-			cap = new(big.Int).Sub(rapid.SampledFrom(fees).Draw(t, "call/capfee"), bi(1))
+			cap = new(big.Int).Sub(pickFrom(t, "call/capfee", fees), bi(1))
 		case 3:
-			cap = new(big.Int).Add(rapid.SampledFrom(fees).Draw(t, "call/capfee"), bi(1))
+			cap = new(big.Int).Add(pickFrom(t, "call/capfee", fees), bi(1))
 		}
 	}
 	if cap.Sign() <= 0 {
 		cap = bi(1)
 	}
 	op.Amt = cap.String()
-	if rapid.IntRange(0, 9).Draw(t, "call/repeated") < 6 {
+	if uni(t, "call/repeated", 10) < 6 {
 		op.Repeated = true
-		switch rapid.IntRange(0, 5).Draw(t, "call/freqkind") {
+		switch uni(t, "call/freqkind", 6) {
 		case 0:
 			op.Freq = 0
 		case 1:
-			if op.Timeout > 1 && rapid.IntRange(0, 3).Draw(t, "call/freqshort") == 0 {
+			if op.Timeout > 1 && uni(t, "call/freqshort", 4) == 0 {
 				op.Freq = uint64(op.Timeout - 1) // invalid
 			} else {
 				op.Freq = uint64(op.Timeout)
 			}
 		default:
-			op.Freq = uint64(op.Timeout) + uint64(rapid.IntRange(0, 3).Draw(t, "call/freqextra"))
+			op.Freq = uint64(op.Timeout) + uint64(uni(t, "call/freqextra", 4))
 		}
-		op.Total = int64(rapid.SampledFrom([]int{-1, -1, 1, 2, 3, 3, 5, 0}).Draw(t, "call/total"))
+		op.Total = int64(pickFrom(t, "call/total", []int{-1, -1, 1, 2, 3, 3, 5, 0}))
 	}
 	if module {
-		op.Threshold = uint32(rapid.IntRange(1, len(op.Provs)).Draw(t, "call/threshold"))
-		if rapid.IntRange(0, 19).Draw(t, "call/badthreshold") == 0 {
+		op.Threshold = uint32((1 + uni(t, "call/threshold", len(op.Provs))))
+		if uni(t, "call/badthreshold", 20) == 0 {
 			op.Threshold = uint32(len(op.Provs) + 1)
 		}
-		op.Paused = rapid.IntRange(0, 4).Draw(t, "call/paused") == 0
+		op.Paused = uni(t, "call/paused", 5) == 0
 	}
 	return op
 }
